@@ -21,6 +21,15 @@ const DefaultGlobalBudget = 100_000
 // ConcurrentMode is set once, before any task starts, by the scenarios that run several cases at the same time.
 var ConcurrentMode bool
 
+// oracleBudget is the work budget of a reference search. When cases run as concurrent tasks of C16 (race-detector
+// build, many at once) the reference gets a twentieth of it: a task whose reference gives up is simply not judged.
+func oracleBudget(b int64) int64 {
+	if ConcurrentMode {
+		return b / 20
+	}
+	return b
+}
+
 // hook configuration shared with the OnNew / OnStep callbacks. Sequential workers set it per case.
 var hookCfg struct {
 	sync.Mutex
